@@ -26,7 +26,7 @@ type xEvent struct {
 type esOp struct {
 	kind int // 0 subscribe, 1 unsubscribe, 2 broadcast, 3 yield
 	sub  int
-	form int // 0 original pointer, 1 clone, 2 NewPID(address,id)
+	form int // 0 original pointer, 1 clone, 2 NewPID(address,id), 3 (unsubscribe only) NewPID(another address, id)
 	n    int
 }
 
@@ -86,7 +86,13 @@ func runEvents(rc *core.RunCtx) {
 				if g.Bool(0.4) {
 					k = 1
 				}
-				scripts[t] = append(scripts[t], esOp{kind: k, sub: mine[g.IntN(len(mine))], form: g.Pick(3, 2, 2)})
+				op := esOp{kind: k, sub: mine[g.IntN(len(mine))], form: g.Pick(3, 2, 2)}
+				if k == 1 && g.Bool(0.2) {
+					// a PID with the same id on another address is another
+					// subscriber: unsubscribing it must leave this one alone
+					op.form = 3
+				}
+				scripts[t] = append(scripts[t], op)
 			case 2:
 				scripts[t] = append(scripts[t], esOp{kind: 2, n: bn[t]})
 				bn[t]++
@@ -100,9 +106,9 @@ func runEvents(rc *core.RunCtx) {
 		for _, o := range sc {
 			switch o.kind {
 			case 0:
-				fmt.Fprintf(&sb, "sub(s%d,%s) ", o.sub, [...]string{"ptr", "clone", "newpid"}[o.form])
+				fmt.Fprintf(&sb, "sub(s%d,%s) ", o.sub, [...]string{"ptr", "clone", "newpid", "foreign-twin"}[o.form])
 			case 1:
-				fmt.Fprintf(&sb, "unsub(s%d,%s) ", o.sub, [...]string{"ptr", "clone", "newpid"}[o.form])
+				fmt.Fprintf(&sb, "unsub(s%d,%s) ", o.sub, [...]string{"ptr", "clone", "newpid", "foreign-twin"}[o.form])
 			case 2:
 				fmt.Fprintf(&sb, "bcast(%d) ", o.n)
 			case 3:
@@ -125,6 +131,8 @@ func runEvents(rc *core.RunCtx) {
 			return s.pid.CloneVT()
 		case 2:
 			return actor.NewPID(s.pid.Address, s.pid.ID)
+		case 3:
+			return actor.NewPID("elsewhere.invalid:4000", s.pid.ID)
 		}
 		return s.pid
 	}
@@ -173,7 +181,10 @@ func runEvents(rc *core.RunCtx) {
 					forms[fmt.Sprintf("sub-%d", o.form)] = true
 				}
 			case 1:
-				if o.sub == si {
+				if o.sub == si && o.form == 3 {
+					// same id, other address: not this subscriber
+					forms["unsub-3"] = true
+				} else if o.sub == si {
 					subscribed = false
 					forms[fmt.Sprintf("unsub-%d", o.form)] = true
 				}
@@ -190,6 +201,9 @@ func runEvents(rc *core.RunCtx) {
 		mixed := "same-form"
 		if len(forms) > 1 || forms["sub-1"] || forms["sub-2"] || forms["unsub-1"] || forms["unsub-2"] {
 			mixed = "distinct-pid-objects"
+		}
+		if forms["unsub-3"] {
+			mixed = "same-id-other-address"
 		}
 		count := map[xEvent]int{}
 		lastN := map[int]int{}
